@@ -437,7 +437,7 @@ def obligations(tier):
                           placeholders='{prefix} {includedir} {mandir} {datadir}', strip_directory='both'), labels=('headers', 'man', 'data', 'install_subdirs', 'targets'), max_paths=3000000))
     out.append(Obligation('buildoptions', ob_options(), dict(options='project int/bool, system combo, builtin bool; symbolic values'), labels=('done',)))
     out.append(Obligation('install-targets', ob_install_targets(), dict(real='Backend.generate_target_install, CustomTarget.install_dir_names, mintro.list_install_plan', outputs='1-3', install_dir="one for all | one per output; false | plain string | get_option('bindir') | get_option('datadir')"), labels=('installed', 'nothing')))
-    for dim in (('inputs',) if tier == 'quick' else ('inputs', 'consumers')):
+    for dim in ('inputs', 'consumers'):
         out.append(Obligation('targets-vs-ninja[%s]' % dim, ob_targets_vs_ninja(dim, tier != 'quick'), dict(real='Interpreter.run + NinjaBackend.generate + mintro.list_targets / list_installed on a generated project without a compiled language',
                               targets='3 custom targets (1-2 outputs) consuming a source file / a whole target / one indexed output / a configure_file output / a generator list; alias / run target; subdirectory',
                               symbolic='build_by_default x2, build_always_stale, install, the index into a multi-output target', varies=dim), labels=('done', 'installed') + (('generator',) if dim == 'inputs' else ()), max_paths=2000000, path_timeout=300))
